@@ -11,6 +11,8 @@
 It shares no code with ANTLR or the generated lexer/parser.
 """
 import functools
+import sys
+sys.setrecursionlimit(max(sys.getrecursionlimit(), 6000))
 import re
 
 # ------------------------------------------------------------------ lexer
@@ -204,6 +206,148 @@ def _seq(prod, toks, owner):
     return False
 
 
+# ------------------------------------------------------------------ fast recogniser
+class _Rec:
+    """Nondeterministic recursive-descent recogniser for the same language, linear-ish in the
+    input, used for long inputs; every function maps a start position to the SET of possible
+    end positions, so all alternatives are followed (no committed choice).  The left-recursive
+    rules are written in their iterative form:
+        term  = UNOP* primary (BINOP UNOP* primary)*
+        pe    = upe ((',' | '->' | ';') upe)*        upe = '\\+' upe | '(' pe ')' | simplepredicate
+    which describes the same strings as the recursive rules of prolog.g4.  `derives` above is the
+    literal transcription; mc.selftest checks that both agree on all short token strings."""
+
+    def __init__(self, kinds):
+        self.k = list(kinds) + ['<eof>']
+        self.memo = {}
+
+    def tok(self, i):
+        return self.k[i]
+
+    def call(self, name, i):
+        key = (name, i)
+        r = self.memo.get(key)
+        if r is None:
+            r = self.memo[key] = frozenset(getattr(self, name)(i))
+        return r
+
+    def primary(self, i):
+        t = self.tok(i)
+        out = set()
+        if t in ('ATOM', 'NUMERAL', 'STRING'):
+            out.add(i + 1)
+            if t == 'ATOM' and self.tok(i + 1) == '/' and self.tok(i + 2) == 'NUMERAL':
+                out.add(i + 3)
+            if self.tok(i + 1) == '(':
+                for j in self.call('termlist', i + 2):
+                    if self.tok(j) == ')':
+                        out.add(j + 1)
+        elif t == 'VARIABLE':
+            out.add(i + 1)
+        elif t == 'BINOP':
+            if self.tok(i + 1) == '(':
+                for j in self.call('term', i + 2):
+                    if self.tok(j) == ',':
+                        for m in self.call('term', j + 1):
+                            if self.tok(m) == ')':
+                                out.add(m + 1)
+        elif t == '(':
+            for j in self.call('term', i + 1):
+                if self.tok(j) == ')':
+                    out.add(j + 1)
+        elif t == 'LBRACK':
+            for j in self.call('termlist', i + 1):
+                if self.tok(j) == 'RBRACK':
+                    out.add(j + 1)
+            for j in self.call('term', i + 1):
+                ends = {j}
+                if self.tok(j) == ',':
+                    ends |= self.call('termlist', j + 1)
+                for m in ends:
+                    if self.tok(m) == '|' and self.tok(m + 1) == 'VARIABLE' and self.tok(m + 2) == 'RBRACK':
+                        out.add(m + 3)
+        return out
+
+    def operand(self, i):
+        while self.tok(i) == 'UNOP':
+            i += 1
+        return self.call('primary', i)
+
+    def term(self, i):
+        out = set()
+        frontier = set(self.call('operand', i))
+        while frontier:
+            out |= frontier
+            nxt = set()
+            for j in frontier:
+                if self.tok(j) == 'BINOP':
+                    nxt |= self.call('operand', j + 1)
+            frontier = nxt - out
+        return out
+
+    def termlist(self, i):
+        out = {i}
+        frontier = set(self.call('term', i))
+        while frontier:
+            out |= frontier
+            nxt = set()
+            for j in frontier:
+                if self.tok(j) == ',':
+                    nxt |= self.call('term', j + 1)
+            frontier = nxt - out
+        return out
+
+    def simple(self, i):
+        if self.tok(i) in ('TRUE', 'FAIL', 'CUT'):
+            return {i + 1}
+        return self.call('term', i)
+
+    def upe(self, i):
+        n = i
+        while self.tok(n) == '\\+':
+            n += 1
+        out = set(self.call('simple', n))
+        if self.tok(n) == '(':
+            for j in self.call('pe', n + 1):
+                if self.tok(j) == ')':
+                    out.add(j + 1)
+        return out
+
+    def pe(self, i):
+        out = set()
+        frontier = set(self.call('upe', i))
+        while frontier:
+            out |= frontier
+            nxt = set()
+            for j in frontier:
+                if self.tok(j) in (',', '->', ';'):
+                    nxt |= self.call('upe', j + 1)
+            frontier = nxt - out
+        return out
+
+    def clause(self, i):
+        out = set()
+        if self.tok(i) == ':-':
+            for j in self.call('simple', i + 1):
+                if self.tok(j) == '.':
+                    out.add(j + 1)
+            return out
+        for j in self.call('simple', i):
+            if self.tok(j) == '.':
+                out.add(j + 1)
+            if self.tok(j) == ':-':
+                for m in self.call('pe', j + 1):
+                    if self.tok(m) == '.':
+                        out.add(m + 1)
+        return out
+
+
+def fast_clause(kinds):
+    """is the token-kind sequence (ending in '.') exactly one clause or directive?"""
+    r = _Rec(kinds)
+    return len(kinds) in r.call('clause', 0)
+
+
 class Result:
     def __init__(self, accepted, reason, heads=None, nclauses=0):
         self.accepted = accepted
@@ -272,7 +416,7 @@ def analyse(text):
     for tk in toks:
         if tk[0] == '.':
             kinds = tuple(k for k, _ in seg) + ('.',)
-            if not derives('clauseordirective', kinds):
+            if not fast_clause(kinds):
                 return Result(False, 'not a clause or directive: %s' % ' '.join(t for _, t in seg + [tk]))
             n += 1
             h = head_of(seg)
